@@ -28,21 +28,36 @@ type tcase struct {
 	Procs  int
 	// NonTrivial by the evidence rule: >= 2 blocks or >= 1 absent optional part.
 	NonTrivial bool
+	// Mode selects the call sequence on the scanner: "" = Header(), Scan to the
+	// end, Err(); the others are described at scanMode (F16).
+	Mode string
+	// Lazy builds File on first use (files that are expensive to build are built
+	// by the one worker that runs them, not by every worker process).
+	Lazy func() *pbfgen.File
+}
+
+func (c *tcase) file() *pbfgen.File {
+	if c.File == nil {
+		c.File = c.Lazy()
+	}
+	return c.File
 }
 
 type replayCase struct {
 	Family string
 	Desc   string
 	Procs  int
+	Mode   string
 	Hex    string
 }
 
 func main() {
 	kit.Main("C01", "exploration", func(r *kit.Run) {
-		r.Rule("complete products per family F1..F8 (F8: string tables large enough for 2- and 3-byte string ids; F9: element counts 63..8001 and id/coordinate magnitudes that cross varint and length boundaries; F10: every decoder count 1..34 on files of 0..8 blocks with and without header) (see DESIGN.md C01; quick restricts F1's A x B square to B = A with one column flipped / info removed / keys_vals flipped / complement / full / empty) x decoder counts; a case is one (file, procs) scan; " +
+		r.Rule("complete products per family F1..F8 (F8: string tables large enough for 2- and 3-byte string ids; F9: element counts 63..8001 and id/coordinate magnitudes that cross varint and length boundaries; F10: every decoder count 1..34 on files of 0..8 blocks with and without header; F12: every numeric field at 0, +-1, 127/128, 2^31, 2^32, 2^40, 2^53+1 and the ends of its type, one field at a time, and repeated values; F13: granularity 1..2^31-1, offsets beyond 32 bits up to +-90/+-180 degrees, date granularity 10 ms..2^31-1 ms, ways without locations in blocks with offsets; F14: block parameters x column/field presence; F15: tag-list shapes and string-table index 0 as the empty string; F16: other call sequences and piecewise readers; F17: BlobHeader up to 65535 bytes, zlib levels, thorough: blobs up to 32 MiB - 1; F18: header values and string classes at their boundaries) (see DESIGN.md C01 and props/c01/boundary.go; quick restricts F1's A x B square to B = A with one column flipped / info removed / keys_vals flipped / complement / full / empty) x decoder counts; a case is one (file, procs) scan; " +
 			"non-trivial = file has >= 2 data blocks or at least one optional column/field/part absent; distinct = FNV of file bytes + procs")
 		r.Assume("gen/pbfgen's hand-written protobuf encoder and its expected-object computation follow osmformat.proto/fileformat.proto")
 		r.Assume("zlib blobs without raw_size, non-packed repeated fields and plain Node groups are outside the enumerated valid-file domain")
+		r.Assume("not judged: instants after 2262-04-11T23:47:16Z (kept out, see props/c01/probes.go), a keys_vals column present with length 0, decoder counts below 1, the error value of a Header() call made after the scan ended")
 		procs := []int{1, 3}
 		if !r.Quick() {
 			procs = []int{1, 2, 3, 8, 16, 32}
@@ -61,7 +76,11 @@ func main() {
 		var cases []tcase
 		fams := map[string]int{}
 		only := []int(nil)
+		onlyFamily := os.Getenv("C01_ONLY") // debugging aid: run one family (never used by ./check)
 		add := func(c tcase) {
+			if onlyFamily != "" && c.Family != onlyFamily {
+				return
+			}
 			ps := procs
 			if only != nil {
 				ps = only
@@ -93,6 +112,11 @@ func main() {
 		genF8(add)
 		genF9(add)
 		genF11(add)
+		genBoundaries(add, func(p []int) { only = p }, r.Quick())
+		genLateTimestamps(add)
+		if os.Getenv("C01_PROBE") != "" {
+			genProbes(add, func(p []int) { only = p }) // inputs kept out of the enumeration, see probes.go
+		}
 		// F10: every decoder count 1..34 (channel capacities 10/n change at 2,3,4,6,11) on files of 0..8, 14, 15, 20 and 27 blocks
 		if os.Getenv("C01_PROCS") == "" {
 			only = nil
@@ -106,34 +130,48 @@ func main() {
 		r.ParIsolated(len(cases), func(i int) { runCase(r, &cases[i]) }, func(i int, what, detail string) {
 			c := &cases[i]
 			r.Violation(c.Family+"/process-"+what+"/"+kit.CrashClass(detail), fmt.Sprintf("%s procs=%d: the scanning process ended in a %s:\n%s", c.Desc, c.Procs, what, detail),
-				replayCase{Family: c.Family, Desc: c.Desc, Procs: c.Procs, Hex: fmt.Sprintf("%x", c.File.Encode().Data)})
+				replayCase{Family: c.Family, Desc: c.Desc, Procs: c.Procs, Mode: c.Mode, Hex: hexOf(c.file().Encode().Data)})
 		})
 	})
 }
 
 func runCase(r *kit.Run, c *tcase) {
-	enc := c.File.Encode()
+	file := c.file()
+	enc := file.Encode()
 	h := fnv.New64a()
 	h.Write(enc.Data)
 	fmt.Fprintf(h, "|%d", c.Procs)
+	if c.Mode != "" {
+		fmt.Fprintf(h, "|%s", c.Mode)
+	}
 	r.Eval(1)
 	if c.NonTrivial {
 		r.NontrivialHash(h.Sum64())
 	}
 	if r.WantSample() {
-		r.Sample(map[string]interface{}{"family": c.Family, "desc": c.Desc, "procs": c.Procs, "bytes": len(enc.Data), "objects": pbfgen.IDs(c.File.Expected())})
+		r.Sample(map[string]interface{}{"family": c.Family, "desc": c.Desc, "procs": c.Procs, "bytes": len(enc.Data), "objects": sampleIDs(file.Expected())})
 	}
-	res := pbfrun.Scan(enc.Data, c.Procs, nil)
 	fail := func(clause, diff string) {
 		r.Violation(c.Family+"/"+clause+"/"+pbfgen.Class(diff),
 			fmt.Sprintf("%s procs=%d: %s", c.Desc, c.Procs, diff),
-			replayCase{Family: c.Family, Desc: c.Desc, Procs: c.Procs, Hex: fmt.Sprintf("%x", enc.Data)})
+			replayCase{Family: c.Family, Desc: c.Desc, Procs: c.Procs, Mode: c.Mode, Hex: hexOf(enc.Data)})
+	}
+	var res pbfrun.Result
+	if c.Mode == "" {
+		res = pbfrun.Scan(enc.Data, c.Procs, nil)
+	} else {
+		var seq string
+		res, seq = scanMode(r, enc.Data, c.Procs, c.Mode, file.ExpectedHeader())
+		if seq != "" {
+			fail("call-sequence", seq)
+			return
+		}
 	}
 	if res.HeaderErr != nil {
 		fail("header-error", res.HeaderErr.Error())
 		return
 	}
-	if d := pbfgen.DiffHeader(res.Header, c.File.ExpectedHeader()); d != "" {
+	if d := pbfgen.DiffHeader(res.Header, file.ExpectedHeader()); d != "" {
 		fail("header", d)
 		return
 	}
@@ -141,7 +179,7 @@ func runCase(r *kit.Run, c *tcase) {
 		fail("scan-error", res.Err.Error())
 		return
 	}
-	if d := pbfgen.DiffObjects(res.Objects, c.File.Expected()); d != "" {
+	if d := pbfgen.DiffObjects(res.Objects, file.Expected()); d != "" {
 		fail("objects", d)
 	}
 }
@@ -498,35 +536,40 @@ func genF6(add func(tcase)) {
 
 // ---- F7: strings ----
 
+var f7Positions = []string{"dense-user", "dense-key", "dense-val", "way-user", "way-key", "way-val", "rel-user", "rel-key", "rel-val", "rel-role", "all"}
+
+// f7File puts s at one string position (or at all of them) of a block with a
+// dense group, a way and a relation.
+func f7File(s, pos string) *pbfgen.File {
+	pick := func(p, def string) string {
+		if pos == p || pos == "all" {
+			return s
+		}
+		return def
+	}
+	dn := pbfgen.DenseNode(1, 1)
+	dn.User = pick("dense-user", "du")
+	dn.Tags = [][2]string{{pick("dense-key", "dk"), pick("dense-val", "dv")}, {"k2", "v2"}}
+	dn2 := pbfgen.DenseNode(2, 2)
+	wi := pbfgen.FullInfo(3)
+	wi.User = pbfgen.Str(pick("way-user", "wu"))
+	w := pbfgen.Way{ID: 3, Info: wi, Refs: []int64{1, 2}, Tags: [][2]string{{pick("way-key", "wk"), pick("way-val", "wv")}}}
+	ri := pbfgen.FullInfo(4)
+	ri.User = pbfgen.Str(pick("rel-user", "ru"))
+	rl := pbfgen.Relation{ID: 4, Info: ri, Tags: [][2]string{{pick("rel-key", "rk"), pick("rel-val", "rv")}},
+		Members: []pbfgen.Member{{1, 3, pick("rel-role", "role")}, {0, 1, "other"}}}
+	return &pbfgen.File{Header: pbfgen.StdHeader(), Blocks: []pbfgen.Block{{Groups: []pbfgen.Group{
+		{Dense: &pbfgen.Dense{Info: true, Cols: pbfgen.ColsMask(63), KeysVals: true, Nodes: []pbfgen.DNode{dn, dn2}}},
+		{Ways: []pbfgen.Way{w}}, {Relations: []pbfgen.Relation{rl}}}}}}
+}
+
 func genF7(add func(tcase)) {
 	long := strings.Repeat("0123456789", 30)
 	classes := map[string]string{"ascii": "plain", "utf8": "naïve 日本語 \U0001F600", "empty": "", "long300": long}
 	order := []string{"ascii", "utf8", "empty", "long300"}
-	positions := []string{"dense-user", "dense-key", "dense-val", "way-user", "way-key", "way-val", "rel-user", "rel-key", "rel-val", "rel-role", "all"}
 	for _, cn := range order {
-		s := classes[cn]
-		for _, pos := range positions {
-			pick := func(p, def string) string {
-				if pos == p || pos == "all" {
-					return s
-				}
-				return def
-			}
-			dn := pbfgen.DenseNode(1, 1)
-			dn.User = pick("dense-user", "du")
-			dn.Tags = [][2]string{{pick("dense-key", "dk"), pick("dense-val", "dv")}, {"k2", "v2"}}
-			dn2 := pbfgen.DenseNode(2, 2)
-			wi := pbfgen.FullInfo(3)
-			wi.User = pbfgen.Str(pick("way-user", "wu"))
-			w := pbfgen.Way{ID: 3, Info: wi, Refs: []int64{1, 2}, Tags: [][2]string{{pick("way-key", "wk"), pick("way-val", "wv")}}}
-			ri := pbfgen.FullInfo(4)
-			ri.User = pbfgen.Str(pick("rel-user", "ru"))
-			rl := pbfgen.Relation{ID: 4, Info: ri, Tags: [][2]string{{pick("rel-key", "rk"), pick("rel-val", "rv")}},
-				Members: []pbfgen.Member{{1, 3, pick("rel-role", "role")}, {0, 1, "other"}}}
-			f := &pbfgen.File{Header: pbfgen.StdHeader(), Blocks: []pbfgen.Block{{Groups: []pbfgen.Group{
-				{Dense: &pbfgen.Dense{Info: true, Cols: pbfgen.ColsMask(63), KeysVals: true, Nodes: []pbfgen.DNode{dn, dn2}}},
-				{Ways: []pbfgen.Way{w}}, {Relations: []pbfgen.Relation{rl}}}}}}
-			add(tcase{Family: "F7", Desc: "string class " + cn + " at " + pos, File: f, NonTrivial: cn != "ascii"})
+		for _, pos := range f7Positions {
+			add(tcase{Family: "F7", Desc: "string class " + cn + " at " + pos, File: f7File(classes[cn], pos), NonTrivial: cn != "ascii"})
 		}
 	}
 }
